@@ -167,6 +167,7 @@ SCORES = {
     "CENTERDISTANCE": ([0.1, 0.3, 0.6, 0.9], [1.3, 2.0, 4.0], 1.0),
     "PLANEDISTANCE": ([0.1, 0.3, 0.6, 0.9], [1.3, 2.0, 4.0], 1.0),
 }
+THRESHOLD_CHOICES = [None, None, None, None, 0.0, 5.0]  # None = the mode's default; 0 = nothing matches; 5 = everything
 
 
 @st.composite
@@ -175,6 +176,9 @@ def simulations(draw, tier="quick"):
     n_frames = draw(st.integers(2, 30 if tier == "thorough" else 9))
     mode = draw(st.sampled_from(["CENTERDISTANCE", "PLANEDISTANCE"]))
     ins, outs, thr = SCORES[mode]
+    thr_override = draw(st.sampled_from(THRESHOLD_CHOICES))
+    if thr_override is not None:
+        thr = thr_override
     ids = {k: f"t{k}" for k in range(n_tracks)}
     next_id = n_tracks
     frames = []
@@ -367,13 +371,13 @@ def tracking_histories(draw, tier="quick"):
             if ev == "label":
                 lab = draw(st.sampled_from(targets + ["unknown"]))
             dyaw = draw(st.sampled_from([0.0, 0.0, 0.2, -0.5, 1.5]))
-            ests.append({"p": [g["p"][0] + r * math.cos(ang), g["p"][1] + r * math.sin(ang), g["p"][2]], "yaw": math.atan2(math.sin(g["yaw"] + dyaw), math.cos(g["yaw"] + dyaw)) if dyaw else g["yaw"], "qs": draw(st.sampled_from([1, -1])), "size": list(g["size"]), "label": lab, "score": draw(GEN.fl(0.05, 0.95)), "trk": k})
+            ests.append({"p": [g["p"][0] + r * math.cos(ang), g["p"][1] + r * math.sin(ang), g["p"][2]], "yaw": math.atan2(math.sin(g["yaw"] + dyaw), math.cos(g["yaw"] + dyaw)) if dyaw else g["yaw"], "qs": draw(st.sampled_from([1, -1])), "size": list(g["size"]), "label": lab, "score": min(0.9999, draw(GEN.fl(0.05, 0.95)) + (t * 41 + k) * 1e-5), "trk": k})
         for e in ests:
             e["uuid"] = tracks[e.pop("trk")]
         if 0 < t < n_frames - 1 and draw(st.integers(0, 4)) == 0:
             ests = []  # a frame in which the tracker reports nothing at all (gap in every label's history)
         for _ in range(draw(st.integers(0, 2)) if ests or t == 0 or draw(st.booleans()) else 0):
-            ests.append({"p": [draw(GEN.fl(-30, 30)), draw(GEN.fl(-30, 30)), 0.0], "yaw": 0.0, "qs": 1, "size": [2.0, 4.0, 1.5], "label": draw(st.sampled_from(targets)), "score": draw(GEN.fl(0.05, 0.95)), "uuid": f"t{next_id}"})
+            ests.append({"p": [draw(GEN.fl(-30, 30)), draw(GEN.fl(-30, 30)), 0.0], "yaw": 0.0, "qs": 1, "size": [2.0, 4.0, 1.5], "label": draw(st.sampled_from(targets)), "score": min(0.9999, draw(GEN.fl(0.05, 0.95)) + (t * 41 + 20 + next_id % 20) * 1e-5), "uuid": f"t{next_id}"})
             next_id += 1
         crit = f0["crit"]
         if t > 0 and draw(st.booleans()):
